@@ -8,6 +8,7 @@ line-protocol driver of the pool model (`xvdriver pool`); op language (documente
   dtx atx submit fblock pack sample   -> -         implementation-side only
   utxo <tx>.<off> <addr> <amt>        -> ok        start state: an unspent output
   key <k> <tx>.<off>                  -> ok        start state: current version of a key
+  dkey <k> <tx>.<off>                 -> ok        start state: delete marker (version) of a deleted key
   ptx <id> in=.. out=.. kin=.. kout=  -> ok|reject admission into the pool on the evolving state
   graph                               -> edges of SortUnconfirmedTx, sorted, de-duplicated (`none` if empty)
   order <id,id,..>                    -> possible|impossible
@@ -77,6 +78,15 @@ def step (d : DS) (line : String) : DS × String :=
         match parseVer v with
         | some ver =>
           let s := { d.s0 with ZU := put d.s0.ZU k ver }
+          ({ d with s0 := s, cur := s }, "ok")
+        | none => (d, "bad-op")
+      | _ => (d, "bad-op")
+    | "dkey" =>
+      match pos with
+      | [k, v] =>
+        match parseVer v with
+        | some ver =>
+          let s := { d.s0 with ZD := put d.s0.ZD k ver }
           ({ d with s0 := s, cur := s }, "ok")
         | none => (d, "bad-op")
       | _ => (d, "bad-op")
